@@ -101,6 +101,13 @@ def fill_voice(rng, length, opts):
     return out
 
 
+def pick_size(tier, rng):
+    """swarm knob: the thorough tier mixes in longer scores (4-8 measures); the quick tier never draws"""
+    if tier == "thorough" and rng.random() < 0.3:
+        return "large"
+    return "small"
+
+
 def gen_score(rng, profile="full", size="small"):
     """profile: full | midi | match | unfold | kernmei | plain"""
     meter_changes_ok = profile == "mei2"  # mei2 = mei + time-signature changes at barlines
